@@ -78,6 +78,14 @@ func (e *Exec) runPath(pkg *ssa.Package, fn *ssa.Function, prefix []Decision) (r
 	e.model = nil
 	e.allowPanic = false
 	e.codecLog = nil
+	e.fsTrace = nil
+	e.fsSeq = 0
+	e.fsModelOn = false
+	e.fsFaultBudget = -1
+	e.fsStatDirs = false
+	e.fsFaultOps = nil
+	e.walkList = nil
+	e.zipList = nil
 	e.gzipLog = nil
 	e.havocSeq = 0
 	e.objs = map[string]Value{}
